@@ -17,7 +17,7 @@ ASSUMPTIONS = ["sphere R = 6 371 000 m; |lat| <= 60 deg, |lon| <= 179 deg",
                "sqrt(eps)*R ~ 0.1 m); distance tolerance 1e-6 m + 1e-9 relative",
                "segment-to-segment: additional planar-frame distortion allowance 2*E^2*(1+tan|lat|)/R, E = extent of the four points"]
 TOLERANCES = {"distance": "1e-6 m + 1e-9 rel", "pointseg": "0.25 m + 1e-6*L", "segseg": "0.25 m + 1e-6*E + 2*E^2*(1+tan|lat|)/R",
-              "box": "sampled at radius r*(1-1e-6)"}
+              "box": "sampled at radius r - max(1e-9 r, 1e-7 m), radii 1 m - 200 km"}
 BUDGET = {"quick": {"shards": 8, "examples": 2500}, "thorough": {"shards": 16, "examples": 40000}}
 
 
@@ -113,8 +113,10 @@ def check_segseg(f1, f2, t1, t2):
 def check_box(p, r, bearings):
     dl = _dl()
     lat_b, lon_l, lat_t, lon_r = base.pkg(dl.box_around_point, p, r)
+    # points just inside the radius: 1e-9 relative, but at least 1e-7 m (the reference destination is accurate to ~1e-8 m)
+    rin = r - max(1e-9 * r, 1e-7)
     for b in bearings:
-        q = gs.destination(p, b, r * (1 - 1e-6))
+        q = gs.destination(p, b, rin)
         if not (lat_b <= q[0] <= lat_t and lon_l <= q[1] <= lon_r):
             raise Violation("box.contains", f"{q} is {gs.dist(p, q):.6f} m from {p} (< r={r}) but outside the box {(lat_b, lon_l, lat_t, lon_r)}")
     return "box"
@@ -199,7 +201,7 @@ def _case(draw):
         t2 = gs.destination(t1, draw(_brg), draw(_len) if draw(st.booleans()) else L * draw(st.floats(0.1, 3)))
         return {"kind": kind, "pts": [list(f1), list(f2), list(t1), list(t2)], "where": where}
     o = draw(_origin)
-    r = draw(st.one_of(st.sampled_from([1.0, 10.0, 100.0, 1000.0, 3000.0]), st.floats(1.0, 3000.0)))
+    r = draw(st.one_of(st.sampled_from([1.0, 10.0, 100.0, 1000.0, 3000.0, 2.0e4, 2.0e5]), st.floats(1.0, 3000.0)))
     bearings = [k * math.pi / 4 for k in range(8)] + draw(st.lists(_brg, min_size=2, max_size=6))
     return {"kind": "box", "pts": [list(o)], "r": r, "bearings": bearings}
 
